@@ -26,3 +26,50 @@ Example C11_example :
   let s := run step g (init g) [M; W 0; M; M; W 1; M; M; W 0; W 0; W 0; M; M] in
   mp s = MRaised /\ wp s = [WDone; WDeadInit; WNew].
 Proof. vm_compute. split; reflexivity. Qed.
+
+(* ---- stopping a sequence while requests are still in flight (Model/SeqStop.v): two stages, a pipe between them that
+   cannot hold a result (results larger than the OS pipe buffer; the stop marker always fits), the gather thread reading
+   the output until the marker ---- *)
+From MpV Require Model.SeqStop Proof.SeqStopProof.
+
+(* For every list of abandoned requests and every interleaving of the stopping thread, the two workers and the gather
+   thread: stopping the members in their order never wedges - a state in which nobody can move has the stop() call
+   returned, both workers and the gather thread ended. *)
+Theorem C11_sequence_stop_completes : forall (g : SeqStop.cfg) (sched : list SeqStop.label),
+  SeqStop.nw g = 1%nat -> SeqStop.reverse g = false ->
+  SeqStop.stuck g (run SeqStop.step g (SeqStop.init g) sched) = true ->
+  SeqStop.finished (run SeqStop.step g (SeqStop.init g) sched) = true.
+Proof. exact SeqStopProof.sequence_stop_completes. Qed.
+Print Assumptions C11_sequence_stop_completes.
+
+(* Why the order matters: stopping the last stage first (the seeded change C11_sequential_stop_reverse_order) leaves
+   the first stage writing into a pipe nobody reads. *)
+Theorem C11_reverse_stop_order_refuted :
+  exists (g : SeqStop.cfg) (sched : list SeqStop.label),
+    SeqStop.nw g = 1%nat /\ SeqStop.reverse g = true /\
+    SeqStop.stuck g (run SeqStop.step g (SeqStop.init g) sched) = true /\
+    SeqStop.finished (run SeqStop.step g (SeqStop.init g) sched) = false.
+Proof.
+  exists {| SeqStop.nw := 1; SeqStop.pending := [1; 2]%Z; SeqStop.reverse := true |}.
+  exists [SeqStop.A 0; SeqStop.M; SeqStop.B; SeqStop.B; SeqStop.B; SeqStop.B; SeqStop.B; SeqStop.Out;
+          SeqStop.M; SeqStop.M; SeqStop.A 0; SeqStop.A 0].
+  vm_compute. repeat split; reflexivity.
+Qed.
+Print Assumptions C11_reverse_stop_order_refuted.
+
+(* Known finding C11-N2 on the current tree: with two workers in the first stage, the first one to take the stop marker
+   forwards it while its peer still holds a request; the second stage and the gather thread end, and the peer's result
+   can never be written: stop() waits for that worker for ever. *)
+Theorem C11_two_workers_stop_refuted :
+  exists (g : SeqStop.cfg) (sched : list SeqStop.label),
+    SeqStop.nw g = 2%nat /\ SeqStop.reverse g = false /\
+    SeqStop.stuck g (run SeqStop.step g (SeqStop.init g) sched) = true /\
+    SeqStop.finished (run SeqStop.step g (SeqStop.init g) sched) = false.
+Proof.
+  exists {| SeqStop.nw := 2; SeqStop.pending := [1; 2; 3]%Z; SeqStop.reverse := false |}.
+  exists [SeqStop.M; SeqStop.A 0; SeqStop.A 1; SeqStop.B; SeqStop.A 0; SeqStop.B; SeqStop.B; SeqStop.A 0;
+          SeqStop.B; SeqStop.A 0; SeqStop.B; SeqStop.B; SeqStop.A 0; SeqStop.A 0; SeqStop.A 0;
+          SeqStop.B; SeqStop.B; SeqStop.B; SeqStop.B; SeqStop.Out; SeqStop.Out; SeqStop.Out; SeqStop.M].
+  vm_compute. repeat split; reflexivity.
+Qed.
+Print Assumptions C11_two_workers_stop_refuted.
